@@ -25,7 +25,7 @@ def plan(tier, seed):
     q = tier == "quick"
     for g in (1, 2):
         shards.append(dict(no=no, g=g, part="special", idx=0)); no += 1
-        for i in range(4 if q else 120):
+        for i in range(6 if q else 400):
             shards.append(dict(no=no, g=g, part="random", idx=i)); no += 1
     return shards
 
